@@ -96,9 +96,34 @@ def build_schema():
 
         return it()
 
+    def root_tag(info):
+        """Everything a resolver can learn from `info` about the execution it runs in."""
+        try:
+            root = json.dumps(info.root_value, sort_keys=True, default=repr)
+        except Exception:  # noqa: BLE001
+            root = repr(type(info.root_value))
+        op = info.operation.name.value if info.operation.name else "-"
+        return f"{root[:80]}|{sorted(getattr(info.variable_values, "coerced", info.variable_values).items())}|{op}|{info.path.as_list()}|{type(info.context).__name__}"
+
+    def info_tag(_src, info):
+        return root_tag(info)
+
+    from graphql.type import GraphQLUnionType
+
+    a_type = GraphQLObjectType("A", {"a": GraphQLField(GraphQLString, resolve=info_tag)})
+    b_type = GraphQLObjectType("B", {"b": GraphQLField(GraphQLString, resolve=info_tag)})
+
+    def resolve_ab(_value, info, _type):
+        # the concrete type depends on the root value of the execution
+        return "A" if sum(map(ord, root_tag(info).split("|")[0])) % 2 else "B"
+
+    ab_type = GraphQLUnionType("AB", [a_type, b_type], resolve_type=resolve_ab)
+
     item = GraphQLObjectType(
         "Item",
         lambda: {
+            "infoTag": GraphQLField(GraphQLString, resolve=info_tag),
+            "thing": GraphQLField(ab_type, resolve=lambda *_: {}),
             "id": GraphQLField(GraphQLInt),
             "name": GraphQLField(GraphQLString),
             "nn": GraphQLField(GraphQLNonNull(GraphQLString)),
@@ -163,7 +188,8 @@ def build_schema():
 
 # ----------------------------------------------------------------------------- generators
 
-ITEM_LEAVES = ["id", "name", "nn", "boom", "boomNN", "slow", "slowNN", "slowBoom", "tags", "nums", "flag"]
+ITEM_LEAVES = ["id", "name", "nn", "boom", "boomNN", "slow", "slowNN", "slowBoom", "tags", "nums", "flag", "infoTag",
+               "infoTag", "thing { ... on A { a } ... on B { b } __typename }"]
 ITEM_OBJS = ["kids", "kid", "strictKid"]
 
 
